@@ -102,11 +102,12 @@ fn sync_base() -> Profile {
 }
 
 pub fn profile_c20() -> Profile {
-    Profile { replicas: (2, 2), events: (20, 160), ..sync_base() }
+    Profile { replicas: (2, 2), events: (20, 160), ladder_prologue_permille: 25, ..sync_base() }
 }
 
 pub fn profile_c21() -> Profile {
     Profile {
+        ladder_prologue_permille: 25,
         replicas: (3, 6),
         events: (30, 220),
         w_disconnect: 5,
